@@ -914,6 +914,15 @@ class Parser:
             raise NotImplementedError("%s is partial but has no C name" %(tp,))
         tp.partial = True
 
+    def _bounded(self, value, exprnode):
+        # C integers have at most 64 bits.  Intermediate results may be
+        # larger here, but not without any limit: huge Python integers
+        # end in MemoryError, OverflowError or ValueError somewhere else
+        if value.bit_length() > 1024:
+            raise FFIError(":%d: integer constant expression too large"
+                           % exprnode.coord.line)
+        return value
+
     def _parse_constant(self, exprnode, partial_length_ok=False):
         # for now, limited to expressions that are an immediate number
         # or positive/negative number
@@ -923,16 +932,16 @@ class Parser:
                 s = s.rstrip('uUlL')
                 try:
                     if s.startswith('0'):
-                        return int(s, 8)
+                        return self._bounded(int(s, 8), exprnode)
                     else:
-                        return int(s, 10)
+                        return self._bounded(int(s, 10), exprnode)
                 except ValueError:
                     try:
                         if len(s) > 1:
                             if s.lower()[0:2] == '0x':
-                                return int(s, 16)
+                                return self._bounded(int(s, 16), exprnode)
                             elif s.lower()[0:2] == '0b':
-                                return int(s, 2)
+                                return self._bounded(int(s, 2), exprnode)
                     except ValueError:
                         pass    # e.g. the hexadecimal float '0x1.8p3'
                 raise CDefError("invalid constant %r" % (s,))
@@ -969,11 +978,11 @@ class Parser:
             left = self._parse_constant(exprnode.left)
             right = self._parse_constant(exprnode.right)
             if exprnode.op == '+':
-                return left + right
+                return self._bounded(left + right, exprnode)
             elif exprnode.op == '-':
-                return left - right
+                return self._bounded(left - right, exprnode)
             elif exprnode.op == '*':
-                return left * right
+                return self._bounded(left * right, exprnode)
             elif exprnode.op == '/':
                 return self._c_div(left, right)
             elif exprnode.op == '%':
@@ -982,8 +991,11 @@ class Parser:
                 if right < 0:
                     raise FFIError(":%d: negative shift count"
                                    % exprnode.coord.line)
+                if right > 1024:
+                    raise FFIError(":%d: shift count too large"
+                                   % exprnode.coord.line)
                 if exprnode.op == '<<':
-                    return left << right
+                    return self._bounded(left << right, exprnode)
                 else:
                     return left >> right
             elif exprnode.op == '&':
